@@ -5,7 +5,7 @@ Also runs seeded/<name>/patch.diff (expect: fail, property from meta.json) when 
 import sys, os, subprocess, glob, json, re
 root = os.path.dirname(os.path.dirname(os.path.abspath(__file__)))
 repo = os.environ.get("SELFTEST_REPO", "/repo")   # a scratch worktree of /repo may be used instead
-extra = "" if repo == "/repo" else " -repo " + repo
+extra = "" if repo == "/repo" else " -repo " + repo + " -verif " + root   # scratch runs write out/, replays/, evidence/ in their own copy
 def sh(cmd, **kw):
     return subprocess.run(cmd, shell=True, capture_output=True, text=True, **kw)
 def clean():
